@@ -56,6 +56,18 @@ fn render_looped(nodes: &[Node], unit: &str, depth: usize, out: &mut String) {
 }
 
 /// Reference: the copies written by hand, in order, placeholders replaced by the loop values.
+/// `{from}` -> `{to}` in every line of a body (used to build same-variable nested loops).
+fn rename_placeholder(nodes: &[Node], from: &str, to: &str) -> Vec<Node> {
+    nodes
+        .iter()
+        .map(|n| match n {
+            Node::Line(l) => Node::Line(l.replace(&format!("{{{from}}}"), &format!("{{{to}}}"))),
+            Node::Loop { var, start, end, inclusive, body } => Node::Loop { var, start: start.clone(), end: end.clone(), inclusive: *inclusive, body: rename_placeholder(body, from, to) },
+            Node::Blank => Node::Blank,
+        })
+        .collect()
+}
+
 fn hand_expand(nodes: &[Node], env: &mut Vec<(&'static str, i64)>, out: &mut String) {
     for n in nodes {
         match n {
@@ -299,8 +311,14 @@ fn build_cases(tier: Tier) -> Vec<Case> {
                                     Inner::Lit(s, len, inc) => ("nested", Bound::Lit(*s), Bound::Lit(if *inc { s + len - 1 } else { s + len }), *inc, format!("inner_{}_{}", if *inc { "inclusive" } else { "exclusive" }, len_class(*len))),
                                     Inner::Dep(name, a, b, inc) => ("nested_dependent", a.clone(), b.clone(), *inc, format!("inner_{name}")),
                                 };
+                                // inner loop variable: its own name, or (literal inner bounds only) the SAME name
+                                // as the outer loop: the outer substitution then also rewrites the inner
+                                // body's placeholders (added after seeded change C42: inner-first expansion)
+                                for ivar in if matches!(inner, Inner::Lit(..)) { &["c", "r"][..] } else { &["c"][..] } {
+                                let inner_body_v: Vec<Node> = if *ivar == "r" { rename_placeholder(&inner_body, "c", "r") } else { inner_body.clone() };
+                                let nest = if *ivar == "r" { "nested_same_variable" } else { nest };
                                 let mut obody = before.clone();
-                                obody.push(Node::Loop { var: "c", start: istart, end: iend, inclusive: iinc, body: inner_body.clone() });
+                                obody.push(Node::Loop { var: ivar, start: istart.clone(), end: iend.clone(), inclusive: iinc, body: inner_body_v });
                                 obody.extend(after.clone());
                                 let the_loop = Node::Loop { var: "r", start: Bound::Lit(os), end: Bound::Lit(oend), inclusive: oinc, body: obody };
                                 cases.push(Case {
@@ -313,6 +331,7 @@ fn build_cases(tier: Tier) -> Vec<Case> {
                                     program: wrap(ctx, the_loop, None),
                                     unit,
                                 });
+                                }
                             }
                         }
                     }
